@@ -413,7 +413,13 @@ def workflow_in_effect_finished(out, at_cancel: dict, decided=(), fs=None) -> bo
         dead = [eff[r] in HALT or (eff[r] == "NOT_STARTED" and blocked(r, seen + (ref,))) for r in reqs]
         if not reqs:
             return False
-        return any(dead) if specs[ref].get("join", "AND") == "AND" else all(dead)
+        j = specs[ref].get("join", "AND")
+        thr = specs[ref].get("threshold", 0) or 0
+        if j in ("AND", "OR") or (j == "N_OF_M" and thr <= 0):     # an OR join without activation info waits like an AND join
+            return any(dead)
+        if j == "N_OF_M":
+            return sum(1 for x in dead if not x) < thr             # too few upstreams can still become continuable
+        return all(dead)
     return all(st in COMPLETE or (st == "NOT_STARTED" and blocked(ref)) for ref, st in eff.items())
 
 
@@ -454,6 +460,17 @@ def in_effect_finished(out, cseq: int) -> set:
             if p.get("status") in HALT:
                 halted.add(out["id_ref"].get(p.get("stage_id")))
     decided |= halted          # a task already failed / stopped: the stage's failure is decided
+    # ... and so is its parent's: a halted synthetic child fails (or stops) the stage it belongs to
+    stage_status = {}
+    for row in out["audit"]:
+        if row["seq"] >= cseq:
+            break
+        if row["kind"] == "stage":
+            stage_status[ref_of(out, row["ent"])] = row["new"]
+    for ref in list(halted) + [r for r, x in stage_status.items() if x in ("TERMINAL", "STOPPED")]:
+        par = specs.get(ref, {}).get("parent")
+        if par:
+            decided.add(par)
     for ref, sp in specs.items():
         n = len(sp.get("tasks", []))
         if n and all(task_status.get((ref, t), "NOT_STARTED") in COMPLETE or (ref, t) in pushed_ct for t in range(n)):
